@@ -57,6 +57,12 @@ type finding struct {
 //	carry       after the faulted render, same goroutine: the same component rendered into the
 //	            SAME writer object (which has recovered; recording restarted) and another
 //	            component rendered into a new writer both deliver exactly their D
+//	inner-ctx   EVERY Render call is held to the cancelled-context clause, nested ones included: a
+//	            hand-written middle component records each inner.Render(ctx, w) it makes (w = the
+//	            parent's templ buffer); when that ctx had already ended, the (generated) inner
+//	            component must return an error wrapping context.Canceled / DeadlineExceeded and add
+//	            no byte of its own; type "ic" forces this at every middle site and, as the middle
+//	            propagates the error, the root Render must return it too
 //	panic       Render panicked
 //	side        a code component rendered its child block into a writer of its own (side
 //	            writer, block document Ds): side bytes are a prefix of Ds; Render nil => side
@@ -78,6 +84,20 @@ func judge(typ string, ev *rcorpus.Event, comp *rcorpus.Comp, ref, other, sref *
 	L := ref.L()
 	if o.Err != nil && o.Err.Panic {
 		add("panic", "Render panicked: %s", o.Err.Msg)
+	}
+	for _, r := range ev.Inner {
+		if r.Done == "" {
+			continue
+		}
+		switch {
+		case r.Err == nil:
+			add("inner-ctx", "inner Render at %s was given a context that had already ended (%s) together with the parent's buffer and returned nil (added %d bytes)", r.ID, r.Done, r.Added)
+		case r.Done == "canceled" && !r.Err.IsCanceled, r.Done == "deadline" && !r.Err.IsDeadline:
+			add("inner-ctx-wrap", "inner Render at %s (context %s) returned %s, which does not wrap the cause", r.ID, r.Done, errText(r.Err))
+		}
+		if r.Added > 0 {
+			add("inner-ctx-bytes", "inner Render at %s was given a context that had already ended (%s) and still wrote %d bytes", r.ID, r.Done, r.Added)
+		}
 	}
 	if ev.Side != nil && sref != nil {
 		if !sref.IsPrefix(ev.Side) {
@@ -144,6 +164,16 @@ func judge(typ string, ev *rcorpus.Event, comp *rcorpus.Comp, ref, other, sref *
 				add("xf-pos", "%s expression %s is at %s lines %d-%d; templ.Error says %s line %d col %d", s.Position, s.Name, s.File, s.StartLine, s.EndLine, e.File, e.Line, e.Col)
 			}
 		}
+	case "ic":
+		ended := false
+		for _, r := range ev.Inner {
+			ended = ended || r.Done != ""
+		}
+		if !ended {
+			add("log", "middle site %s made no inner Render call with an ended context", ev.Fail)
+		} else if o.Err == nil || !(o.Err.IsCanceled || o.Err.IsDeadline) {
+			add("ic-wrap", "the inner Render at %s got an ended context; the root Render returned %v", ev.Fail, errText(o.Err))
+		}
 	case "mc":
 		if o.Err != nil && !o.Err.IsCanceled {
 			add("mc-wrap", "context cancelled at %s; Render returned %q (errors.Is(err, context.Canceled) must hold)", ev.Fail, msg)
@@ -179,7 +209,7 @@ func errText(e *rcorpus.ErrFacts) string {
 	if e.Msg != "" {
 		return fmt.Sprintf("%q", e.Msg)
 	}
-	return fmt.Sprintf("error{injected:%v short:%v canceled:%v sentinel:%v}", e.IsInjected, e.IsShort, e.IsCanceled, e.IsSentinel)
+	return fmt.Sprintf("error{injected:%v short:%v canceled:%v deadline:%v sentinel:%v}", e.IsInjected, e.IsShort, e.IsCanceled, e.IsDeadline, e.IsSentinel)
 }
 
 type viol struct {
@@ -208,6 +238,7 @@ type shardResult struct {
 	seqs, seqSteps, seqFaults   int
 	seqGC                       int
 	seqKinds                    map[string]int
+	ic, innerEnded              int64
 }
 
 var otherPool = []string{"Text", "Attrs", "ClassAttr", "Oncey", "UseWrap", "ScriptCall", "ToGoHTML", "OnClick"}
@@ -340,6 +371,9 @@ func runShard(c *core.Ctx, b *rcorpus.Built, bufsize int, comps []rcorpus.Comp, 
 			cv.xf[ev.Fail] = true
 			res.positions[sitePos(b.Sites, ev.Site)]++
 			c.NontrivialN(1)
+		case "ic":
+			res.ic++
+			c.NontrivialN(1)
 		case "mc":
 			res.mc++
 		case "cc":
@@ -351,6 +385,11 @@ func runShard(c *core.Ctx, b *rcorpus.Built, bufsize int, comps []rcorpus.Comp, 
 			res.fe++
 			if ev.Flush > 0 {
 				res.feCalled++
+			}
+		}
+		for _, r := range ev.Inner {
+			if r.Done != "" {
+				res.innerEnded++
 			}
 		}
 		if ev.C1 != nil {
@@ -462,7 +501,7 @@ func Run(c *core.Ctx) {
 	c.Level = "fault_enumeration"
 	c.Rule = "cases = (component, buffer size, single fault): writer fault at EVERY offset k in 0..|D| × {hard error with partial write, short write, zero write}, " +
 		"every failable expression / nested component / child block reached by the fault-free render (failing, and cancelling the context there), " +
-		"context cancelled before start, failing writer.Flush(), and for components whose code component renders its child block into a side writer: faults of THAT writer at every offset of the block; " +
+		"context cancelled before start, a hand-written middle component handing its inner generated component the parent's buffer with an already ended context (every middle site), failing writer.Flush(), and for components whose code component renders its child block into a side writer: faults of THAT writer at every offset of the block; " +
 		"each followed by carry-over renders (same component into the same writer object, another component into a new writer). " +
 		"Plus writer-kind sequences: one goroutine, long-lived writer objects of 9 kinds (caller-owned bufio.Writer 16/4096/8192, bytes.Buffer, strings.Builder, Write-only, StringWriter, func-typed, ResponseWriter-like), interleaved and repeated, pools drained at some steps; every sink must hold exactly the documents rendered into it. Components: hand-written template set (src/*.templ) + seeded random trees for the Interp template. " +
 		"non-trivial = writer-fault triples with k < |D| (the fault really fires) + failing-site cases."
@@ -536,7 +575,7 @@ func Run(c *core.Ctx) {
 	var viols []viol
 	positions := map[string]int{}
 	seqKinds := map[string]int{}
-	var gets, puts, recycled int64
+	var gets, puts, recycled, notReturned int64
 	allComplete := true
 	for _, r := range results {
 		ps := perSize[r.bufsize]
@@ -565,6 +604,8 @@ func Run(c *core.Ctx) {
 		if r.seqs > 0 && r.pool != nil {
 			c.Add("writer_kind_sequences_distinct_pooled_buffers", r.pool.Distinct)
 		}
+		c.Add("inner_cancel_cases", int(r.ic))
+		c.Add("inner_render_calls_given_an_ended_context_and_the_parent_buffer", int(r.innerEnded))
 		c.Add("failing_site_cases", int(r.xf))
 		c.Add("mid_render_cancel_cases", int(r.mc))
 		c.Add("cancelled_before_start_cases", int(r.cc))
@@ -596,9 +637,13 @@ func Run(c *core.Ctx) {
 		puts += r.pool.Puts
 		recycled += r.pool.Recycled
 		c.Eval(1)
-		if len(r.pool.Anomalies) > 0 || r.pool.Live != 0 || r.pool.Gets != r.pool.Puts {
+		// Pool monitor rule: a buffer is never handed out while it is live and never released
+		// twice. A buffer that is never released (e.g. dropped after a failed flush) is not a
+		// violation of C10: gets - puts is reported as evidence only.
+		notReturned += r.pool.Gets - r.pool.Puts
+		if len(r.pool.Anomalies) > 0 {
 			viols = append(viols, viol{Case{BufSize: r.bufsize, Type: "pool", Rule: "pool",
-				Detail: fmt.Sprintf("buffer pool monitor at quiescence: gets=%d puts=%d live=%d anomalies=%v", r.pool.Gets, r.pool.Puts, r.pool.Live, r.pool.Anomalies)}})
+				Detail: fmt.Sprintf("buffer pool monitor: gets=%d puts=%d live=%d anomalies=%v", r.pool.Gets, r.pool.Puts, r.pool.Live, r.pool.Anomalies)}})
 		}
 	}
 	fp := map[string]any{}
@@ -623,12 +668,16 @@ func Run(c *core.Ctx) {
 			c.Inconclusive("writer kind " + k + " was never used in a sequence")
 		}
 	}
+	if c.Get("inner_render_calls_given_an_ended_context_and_the_parent_buffer") == 0 {
+		c.Inconclusive("no inner Render call with an ended context and the parent's buffer was observed")
+	}
 	if c.Get("side_writer_faults_fired") == 0 {
 		c.Inconclusive("no side-writer fault was exercised")
 	}
 	c.Set("pool_hook_gets", gets)
 	c.Set("pool_hook_puts", puts)
 	c.Set("pool_hook_recycled_gets", recycled)
+	c.Set("pool_hook_buffers_never_released_not_judged", notReturned)
 	c.Set("exhaustive", allComplete)
 	c.Set("exhaustive_scope", "writer-fault offset dimension only: every k in 0..|D| × 3 fault kinds, per component and buffer size (verified from the log); components and buffer sizes are samples")
 	if gets == 0 || recycled == 0 {
